@@ -334,7 +334,7 @@ def diagnose_qdotu(R, t, q, q_rod):
     return fn
 
 
-def classify_hu(R, t, q, u):
+def classify_hu(ctx, R, t, q, u):
     """known finding (b): all six strains constrained => the class derives from the
     abstract base, which implements h_u (= -d f_gyr/du) but no h: System.h has no rod
     contribution. Matches iff the rod has no callable h, the finite-difference
@@ -363,6 +363,7 @@ def classify_hu(R, t, q, u):
         model[np.ix_(ur, np.where(inrod)[0])] = Dg[np.ix_(ur, np.where(inrod)[0])]
         if np.max(np.abs(Js - model) - (1e-6 * m + 20 * (err + errg))) > 0:
             return None
+        ctx.count("masked_stratum:System.h_u/constr:012345")
         return KEY_HU
     return fn
 
@@ -410,7 +411,7 @@ def system_checks(ctx, R, rng, tally, t, q_rod, u_rod, label):
 
     dcheck(ctx, tally, "System.h_q", lambda: sysm.h_q(t, q, u), lambda qq: sysm.h(t, qq, u), q, sq, cq, diagnose=se3, extra=ex)
     dcheck(ctx, tally, "System.h_u", lambda: sysm.h_u(t, q, u), lambda uu: sysm.h(t, q, uu), u, su, cu,
-           classify=classify_hu(R, t, q, u), extra=ex)
+           classify=classify_hu(ctx, R, t, q, u), extra=ex)
     if R.nla_c:
         la_c = rng.normal(size=sysm.nla_c) * R.kmax * 0.1
         sl = np.full(sysm.nla_c, R.kmax)
